@@ -519,6 +519,72 @@ theorem packElems_spec (big : Bool) (c : Ch) (vs : List Int) (bs : List UInt8)
         have t2 : (a ++ (r ++ rest)).drop c.size = r ++ rest := by rw [← hl]; exact List.drop_left
         rw [t1, t2, decElem_encElem big c v a he, u2 rest]
 
+theorem Ch.align_pos (c : Ch) : 0 < c.align := by cases c <;> decide
+
+theorem le_memberOff (packed : Bool) (c : Ch) (pos : Nat) : pos ≤ memberOff packed c pos := by
+  unfold memberOff
+  split
+  · exact Nat.le_refl _
+  · exact le_roundUp _ _ (Ch.align_pos c)
+
+theorem le_endM (packed : Bool) (cs : List Ch) (pos : Nat) : pos ≤ endM packed pos cs := by
+  induction cs generalizing pos with
+  | nil => exact Nat.le_refl _
+  | cons c cs ih =>
+    have := ih (memberOff packed c pos + c.size)
+    have := le_memberOff packed c pos
+    simp only [endM]; omega
+
+theorem slice_mid (a e t : List UInt8) : slice (a ++ e ++ t) a.length (a.length + e.length) = e := by
+  simp [slice]
+
+/-- native or packed multi-member formats: `pack` has the size `calcsize` reports (with the alignment gaps)
+and every member decodes, at its offset, to the value packed -/
+theorem packM_spec (packed big : Bool) (cs : List Ch) : ∀ (pos : Nat) (vs : List Int) (bs : List UInt8),
+    packM packed big pos cs vs = some bs →
+    bs.length = endM packed pos cs - pos ∧
+    ∀ (pre rest : List UInt8), pre.length = pos → decM packed big pos cs (pre ++ bs ++ rest) = vs := by
+  induction cs with
+  | nil =>
+    intro pos vs bs h
+    cases vs with
+    | nil => simp only [packM, Option.some.injEq] at h; subst h; simp [endM, decM]
+    | cons v vs => simp [packM] at h
+  | cons c cs ih =>
+    intro pos vs bs h
+    cases vs with
+    | nil => simp [packM] at h
+    | cons v vs =>
+      simp only [packM] at h
+      cases he : encElem big c v with
+      | none => simp [he] at h
+      | some e =>
+        cases hr : packM packed big (memberOff packed c pos + c.size) cs vs with
+        | none => simp [he, hr] at h
+        | some r =>
+          simp only [he, hr, Option.some.injEq] at h
+          subst h
+          have hl := encElem_length big c v e he
+          have ho := le_memberOff packed c pos
+          have hE := le_endM packed cs (memberOff packed c pos + c.size)
+          obtain ⟨l2, u2⟩ := ih _ vs r hr
+          obtain ⟨z, hz⟩ : ∃ z, z = zeros (memberOff packed c pos - pos) := ⟨_, rfl⟩
+          have hzl : z.length = memberOff packed c pos - pos := by rw [hz]; simp
+          rw [← hz]
+          refine ⟨by simp only [List.length_append, hzl, hl, l2, endM]; omega, ?_⟩
+          intro pre rest hp
+          have hpl : (pre ++ z).length = memberOff packed c pos := by
+            simp only [List.length_append, hp, hzl]; omega
+          have e1 : pre ++ (z ++ e ++ r) ++ rest = (pre ++ z) ++ e ++ (r ++ rest) := by
+            simp [List.append_assoc]
+          have e2 : pre ++ (z ++ e ++ r) ++ rest = (pre ++ z ++ e) ++ r ++ rest := by
+            simp [List.append_assoc]
+          simp only [decM]
+          congr 1
+          · rw [e1, ← hpl, ← hl, slice_mid, decElem_encElem big c v e he]
+          · rw [e2]
+            exact u2 _ rest (by rw [List.length_append, hpl, hl])
+
 /-- what `pack` produces has the format's size and decodes to the packed values -/
 theorem pack_spec (fmt : Fmt) (vs : List Int) (bs : List UInt8) (h : pack fmt vs = some bs) :
     bs.length = fmtsize fmt ∧ decode fmt bs = vs := by
@@ -541,6 +607,12 @@ theorem pack_spec (fmt : Fmt) (vs : List Int) (bs : List UInt8) (h : pack fmt vs
       simp only [List.append_nil, hn] at this
       exact this
     next => cases h
+  | mixed packed big cs =>
+    simp only [pack] at h
+    obtain ⟨l, u⟩ := packM_spec packed big cs 0 vs bs h
+    refine ⟨by simpa [fmtsize] using l, ?_⟩
+    have := u [] [] rfl
+    simpa [decode] using this
 
 /-- **py_roundtrip**: for every format and every value tuple `pack` accepts, writing at a position
 inside the map and reading back gives the values; the map keeps its length and only the variable's
@@ -637,6 +709,7 @@ theorem single_cases (fmt : Fmt) (big : Bool) (c : Ch) (h : fmt.single = some (b
   | arr b n c' =>
     match n, h with
     | 1, h => simp only [Fmt.single, Option.some.injEq, Prod.mk.injEq] at h; rw [h.1, h.2]; exact Or.inr rfl
+  | mixed _ _ _ => simp [Fmt.single] at h
 
 theorem pack_single (fmt : Fmt) (big : Bool) (c : Ch) (h : fmt.single = some (big, c)) (v : Int) :
     pack fmt [v] = encElem big c v ∧ fmtsize fmt = c.size := by
@@ -679,6 +752,45 @@ theorem prog_load_eq_unpack (fmt : Fmt) (big : Bool) (c : Ch) (hs : fmt.single =
     have e : fmtsize (.arr big 1 c) = c.size := by simp [fmtsize]
     rw [e, if_pos hr]
     simp only [decode, unpackElems, hl]
+
+/-! ### members of multi-member variables: the program's natural offsets are Python's -/
+
+theorem decM_member (packed big : Bool) (cs : List Ch) : ∀ (pos j off : Nat) (c : Ch) (bs : List UInt8),
+    memberAt packed pos cs j = some (off, c) →
+    (decM packed big pos cs bs)[j]? = some (decElem big c (slice bs off (off + c.size))) ∧
+    off + c.size ≤ endM packed pos cs := by
+  induction cs with
+  | nil => intro pos j off c bs h; simp [memberAt] at h
+  | cons d ds ih =>
+    intro pos j off c bs h
+    cases j with
+    | zero =>
+      simp only [memberAt, Option.some.injEq, Prod.mk.injEq] at h
+      obtain ⟨rfl, rfl⟩ := h
+      exact ⟨by simp [decM], by simp only [endM]; exact le_endM _ _ _⟩
+    | succ j =>
+      simp only [memberAt] at h
+      obtain ⟨h1, h2⟩ := ih _ j off c bs h
+      exact ⟨by simpa [decM] using h1, by simpa [endM] using h2⟩
+
+theorem slice_slice (data : List UInt8) (p n a b : Nat) (hb : b ≤ n) (hab : a ≤ b) :
+    slice (slice data p (p + n)) a b = slice data (p + a) (p + b) := by
+  simp only [slice, List.drop_take, List.drop_drop, List.take_take]
+  congr 1; omega
+
+/-- **member_load_eq_unpack**: for a multi-member variable inside the map, the program's load of member `j`
+at `position + offset_j` (native alignment, or none for packed formats) yields the `j`-th value of the
+tuple the Python-side getter returns -/
+theorem member_load_eq_unpack (packed big : Bool) (cs : List Ch) (data : List UInt8) (p j off : Nat) (c : Ch)
+    (hm : memberAt packed 0 cs j = some (off, c)) (hr : p + fmtsize (.mixed packed big cs) ≤ data.length) :
+    ∃ vs v, unpack (.mixed packed big cs) data p = .ok vs ∧ vs[j]? = some v ∧ progLoad data big c (p + off) = .ok v := by
+  obtain ⟨h1, h2⟩ := decM_member packed big cs 0 j off c (slice data p (p + endM packed 0 cs)) hm
+  have hs : fmtsize (.mixed packed big cs) = endM packed 0 cs := rfl
+  rw [hs] at hr
+  refine ⟨_, _, by simp [unpack, hs, hr, decode], h1, ?_⟩
+  unfold progLoad
+  rw [if_pos (by omega), slice_slice data p _ off (off + c.size) h2 (by omega)]
+  congr 3; omega
 
 /-! ### which maps `EBPF.__init__` initialises -/
 
@@ -745,6 +857,16 @@ example : pack (.arr true 1 .H) [0x1234] = some [0x12, 0x34] := by decide
 example : pack (.arr false 3 .B) [1, 2, 3] = some [1, 2, 3] := by decide
 example : pack .fixed [-150000] = some [0x10, 0xb6, 0xfd, 0xff, 0xff, 0xff, 0xff, 0xff] := by decide
 example : pack (.arr false 1 .B) [256] = none := by decide
+example : fmtsize (.mixed false false [.B, .I]) = 8 := by decide
+example : fmtsize (.mixed false false [.H, .Q]) = 16 := by decide
+example : fmtsize (.mixed false false [.I, .B]) = 5 := by decide
+example : fmtsize (.mixed false false [.B, .B, .B, .H]) = 6 := by decide
+example : fmtsize (.mixed true false [.B, .I]) = 5 := by decide
+example : pack (.mixed false false [.B, .I]) [0x11, 0x22334455] = some [0x11, 0, 0, 0, 0x55, 0x44, 0x33, 0x22] := by decide
+example : memberAt false 0 [.H, .Q] 1 = some (8, .Q) := by decide
+example : parseFmt "BI" = some (.mixed false false [.B, .I]) := by decide
+example : parseFmt "3BH" = some (.mixed false false [.B, .B, .B, .H]) := by decide
+example : parseFmt "<BI" = some (.mixed true false [.B, .I]) := by decide
 example : parseFmt "64I" = some (.arr false 64 .I) := by decide
 example : parseFmt ">3h" = some (.arr true 3 .h) := by decide
 example : parseFmt "x" = some .fixed := by decide
